@@ -896,6 +896,11 @@ def _run(ctx, exe, quick, rnd, mc_info):
     shape_calls += [dict(e=ent(sh), mt=mt, doc=d, gate=0, sh=sh) for (sh, gid), lst in sorted(pool.gate.items()) if gid in (1, 7)
                     for mt, d in lst]
     shape_calls += [dict(e='Bytes', mt=mt, doc=d, gate=0, sh=sh) for sh, b in sorted(HOLD_SHAPES.items()) for mt, d in pool.by_shape[b]]
+    # probe documents without a catalogued shape (nested calls differ per option set): only the option structs are judged
+    probes = [('text/html', b'<!--[if IE 6]><p> c </p><style>a { b : c }</style><script>var  x = 1</script><![endif]--><p> z </p>'),
+              ('text/html', HTMLS[0]), ('text/html', HTMLC[1]), ('text/html', b'<iframe><p style="a:b"> f </p></iframe><math><mi> x </mi></math>'),
+              ('image/svg+xml', SVG1), ('text/css', CSS[0])] + HAND_EXTRA
+    shape_calls += [dict(e='Bytes', mt=mt, doc=pool.add(b), gate=0, sh='') for mt, b in probes]
     shapes = [dict(kind='shape', id='h%d' % o, optset=o, gomaxprocs=4, calls=shape_calls) for o in optsets]
     colds = cold_scenarios(pool, rnd, quick, optsets)
     everything = scheds + pairs + seqs + stress + colds
@@ -999,7 +1004,7 @@ def _run(ctx, exe, quick, rnd, mc_info):
         for l, w in bad[sid]:
             if w == 'NoDataRace' and not race_in_code_under_test(l['note']):
                 raise vlib.Infra('race report without a frame of the code under test (driver bug?):\n' + l['note'][:3000])
-        seqlike = sc['kind'] in ('base', 'seq', 'cmdin', 'htmldep') and not sc.get('conc')
+        seqlike = sc['kind'] in ('base', 'seq', 'shape', 'cmdin', 'htmldep') and not sc.get('conc')
         if sid in pinned_ids:
             # pinned witnesses already ran alone in a process of their own: that run is the isolated replay
             lines2 = [l for l, _ in bad[sid]]
@@ -1089,7 +1094,7 @@ def replay(ctx, obj):
     for i, b in det['docs'].items():
         pool.docs[i] = base64.b64decode(b)
     sc = det['scenario']
-    seqlike = sc['kind'] in ('base', 'seq', 'cmdin', 'htmldep') and not sc.get('conc')
+    seqlike = sc['kind'] in ('base', 'seq', 'shape', 'cmdin', 'htmldep') and not sc.get('conc')
     lines, rej = rerun_alone(ctx, exe, pool, sc, 1 if seqlike else 4)
     if rej:
         print(describe(sc, lines, rej))
